@@ -82,6 +82,28 @@ theorem round_in_precedence_order (l : List Watcher) :
     (∀ k, (sortByPrec l).filter (fun x => x.precedence = k) = l.filter (fun x => x.precedence = k)) :=
   ⟨sortByPrec_sorted l, fun k => sortByPrec_stable k l⟩
 
+/-- **C03/C04 (a watcher is told about what it watches).**  Every event a watcher receives at a flush is of
+the watcher's own kind (the value, or the Parameter attribute it was registered for), names one of its own
+parameters, and carries old and new of an event of that kind that was queued for that parameter — a `bounds`
+event queued in the same batch never reaches a watcher of the value (seeded C04-r6t1: batch table keyed by
+the name alone).  The oracle applies the same clause to every flush of the implementation. -/
+theorem flush_events_are_of_the_watchers_kind (tr : Bool) (wt : Watcher) (dict : List Ev) :
+    ∀ te ∈ evsFor tr wt dict, te.what = wt.what ∧ te.name ∈ wt.params ∧
+      ∃ e ∈ dict, e.name = te.name ∧ e.what = wt.what ∧ te.new = e.new ∧ te.old = e.old := by
+  intro te hte
+  obtain ⟨e, hl, ht⟩ := evsFor_mem hte
+  obtain ⟨⟨hn, hk⟩, pre, post, hd, _⟩ := lastFor_some hl
+  have hmem : te.name ∈ wt.params := by
+    have := evsFor_names tr wt dict
+    have h2 : te.name ∈ (evsFor tr wt dict).map (·.name) := List.mem_map.2 ⟨te, hte, rfl⟩
+    rw [this] at h2
+    exact (List.mem_filter.1 h2).1
+  refine ⟨by rw [ht]; simp [typed, hk], hmem, e, by rw [hd]; simp, hn, hk, by rw [ht]; simp [typed], by rw [ht]; simp [typed]⟩
+
+/-- non-vacuity: a value event and a `bounds` event of the same parameter in one batch -/
+example : (evsFor false { id := 0, cb := 0, params := [1], what := 0, onlychanged := false, queued := false, precedence := 0, body := 0 }
+    [{ name := 1, old := 0, new := 5, what := 1 }, { name := 1, old := 0, new := 7, what := 0 }]).map (·.new) = [7] := by decide
+
 /-- **C04 (coalesces: one event per watched parameter, the last one).**  At a flush a watcher
 receives, in the order of its own parameter list, exactly one event for each of its parameters
 that has a queued event, and that event is the *last* one queued for the parameter (the one
